@@ -342,30 +342,41 @@ class ChainNode(Entity):
         reply_future: SimFuture | None = metadata.get("reply_future")
 
         # CRAQ: if not tail and key is dirty, forward to tail
+        fwd_event = self._forward_if_dirty(key, reply_future)
+        if fwd_event is not None:
+            yield 0.0, [fwd_event]
+            return None
+
+        # Serve locally
+        value = yield from self._store.get(key)
+
+        # An uncommitted write may have been applied during the read latency
+        fwd_event = self._forward_if_dirty(key, reply_future)
+        if fwd_event is not None:
+            yield 0.0, [fwd_event]
+            return None
+
+        self._reads_served += 1
+        if reply_future is not None:
+            reply_future.resolve({"status": "ok", "value": value})
+        return None
+
+    def _forward_if_dirty(self, key: str, reply_future: SimFuture | None) -> Event | None:
+        """CRAQ: build the Read forwarded to the tail if ``key`` is dirty here."""
         if (
             self._craq_enabled
             and self._role != ChainNodeRole.TAIL
             and key in self._dirty_keys
             and self.head_node is not None
         ):
-            # Find tail (last in chain)
             tail = self._find_tail()
             if tail is not None and tail is not self:
-                fwd_event = self._network.send(
+                return self._network.send(
                     self,
                     tail,
                     "Read",
                     payload={"key": key, "reply_future": reply_future},
                 )
-                yield 0.0, [fwd_event]
-                return None
-
-        # Serve locally
-        self._reads_served += 1
-        value = yield from self._store.get(key)
-
-        if reply_future is not None:
-            reply_future.resolve({"status": "ok", "value": value})
         return None
 
     def _find_tail(self) -> ChainNode | None:
